@@ -47,8 +47,8 @@ Section Ws.
   Lemma node_step2 n : NodeN2 n -> ListN2 n -> NodeN2 (S n).
   Proof.
     intros NN LN i i' SZ W ps p p'.
-    destruct i as [ws cs|ws b tr|ws name post args|ws k b tr|ws text post|ws mid|ws bws name args b tr ews];
-      destruct i' as [ws' cs'|ws' b' tr'|ws' name' post' args'|ws' k' b' tr'|ws' text' post'|ws' mid'|ws' bws' name' args' b' tr' ews'];
+    destruct i as [ws cs|ws b tr|ws name post args|ws k b tr|ws text post|ws mid|ws bws name args b tr ews|ws chars args];
+      destruct i' as [ws' cs'|ws' b' tr'|ws' name' post' args'|ws' k' b' tr'|ws' text' post'|ws' mid'|ws' bws' name' args' b' tr' ews'|ws' chars' args'];
       try contradiction; cycle 4.
     - cbn [wsv2] in W. destruct W as (W1 & <- & W2). repeat split.
     - cbn [node_of2]. destruct (par_spec_ok cx); repeat split.
@@ -69,6 +69,20 @@ Section Ws.
       rewrite !E, !structure_gen_nodelist.
       erewrite (args_struct2 n NN args args'); [|lia|exact W3].
       erewrite (close_struct2 n LN b b' tr tr'); [reflexivity|lia|exact W4|exact W2].
+    - (* specials *)
+      cbn [wsv2] in W. destruct W as (W1 & <- & W3). fold (wsv_items2 args args') in W3.
+      cbn [isize2] in SZ. fold (lsize2 args) in SZ.
+      destruct (get_specials_spec cx chars) as [sp|] eqn:GS; [|cbn [node_of2]; rewrite GS; repeat split].
+      destruct (sp_args sp) as [l|lk] eqn:SA; [|cbn [node_of2]; rewrite GS, SA; repeat split].
+      rewrite !(node_of_spc2 cx ps _ _ chars _ sp l GS SA). cbn zeta. cbn [sopt oblank is_blank_node structure].
+      repeat split.
+      assert (E : forall x, (fix sa (l0 : list (option node)) : list (option node) :=
+                   match l0 with
+                   | [] => []
+                   | Some x0 :: r => Some (structure x0) :: sa r
+                   | None :: r => None :: sa r
+                   end) x = structure_args x) by reflexivity.
+      rewrite !E. erewrite (args_struct2 n NN args args'); [reflexivity|lia|exact W3].
     - repeat split.
     - cbn [wsv2] in W. destruct W as (W1 & W2 & W3). fold (wsv_items2 b b') in W3.
       cbn [isize2] in SZ. fold (lsize2 b) in SZ.
@@ -103,8 +117,8 @@ Section Ws.
     rewrite lsize_cons2 in SZ. pose proof (isize_pos2 i). rewrite !absorb_cons2.
     apply LN; [lia|exact Wr|].
     destruct (NN i i' ltac:(lia) Wi ps (p + length (item_ws2 i)) (p' + length (item_ws2 i'))) as (N1 & N2 & N3).
-    destruct i as [ws cs|ws b tr|ws name post args|ws k b tr|ws text post|ws mid|ws bws name args b tr ews];
-      destruct i' as [ws' cs'|ws' b' tr'|ws' name' post' args'|ws' k' b' tr'|ws' text' post'|ws' mid'|ws' bws' name' args' b' tr' ews'];
+    destruct i as [ws cs|ws b tr|ws name post args|ws k b tr|ws text post|ws mid|ws bws name args b tr ews|ws chars args];
+      destruct i' as [ws' cs'|ws' b' tr'|ws' name' post' args'|ws' k' b' tr'|ws' text' post'|ws' mid'|ws' bws' name' args' b' tr' ews'|ws' chars' args'];
       try contradiction; cbn [absorb_item2 item_ws2] in *.
     - cbn [wsv2] in Wi. destruct Wi as [W1 <-]. apply cs_push_pending; [exact C|].
       apply feq_app. apply wse_feq. exact W1.
@@ -113,6 +127,7 @@ Section Ws.
     - apply cs_push_node; [|exact N1|congruence]. apply cs_pre_flush; [exact C|]. cbn [wsv2] in Wi. tauto.
     - apply cs_push_node; [|exact N1|congruence]. apply cs_pre_flush; [exact C|]. cbn [wsv2] in Wi. tauto.
     - apply cs_push_node; [|exact N1|congruence]. apply cs_pre_flush; [exact C|]. cbn [wsv2] in Wi. exact Wi.
+    - apply cs_push_node; [|exact N1|congruence]. apply cs_pre_flush; [exact C|]. cbn [wsv2] in Wi. tauto.
     - apply cs_push_node; [|exact N1|congruence]. apply cs_pre_flush; [exact C|]. cbn [wsv2] in Wi. tauto.
   Qed.
 
